@@ -120,7 +120,7 @@ class Replayer:
         self.path = []      # [(key, Node)]
         self.root_key = None
         self.root = None
-        self.stats = dict(behaviours=0, steps=0, steps_new=0, exports=0, subq=0, subq_alias_ok=0,
+        self.stats = dict(behaviours=0, steps=0, steps_new=0, nontrivial=0, data_comparisons=0, exports=0, subq=0, subq_alias_ok=0,
                           err_steps=0, skipped_undefined=0, sql_dead=0, missing_ref=0)
         self.failures = []  # dicts
         self.nontrivial = set()
@@ -279,6 +279,9 @@ class Replayer:
                 return df
         else:
             res = CMP.compare_rows(exp_rows, CMP.frame_rows(df_cmp), obs["tys"], cls)
+        self.stats["data_comparisons"] += 1
+        if exp_rows:
+            node.events.append(dict(ev="nontrivial"))
         if res is not None:
             self.fail(node, beh, k, bk, res[0], res[1], expected=obs["rows"][:8], actual=CMP.frame_rows(df_cmp)[:8])
         return df
@@ -467,6 +470,7 @@ class Replayer:
                 return
             elif exp_err is not None:
                 self.stats["err_steps"] += 1
+                node.events.append(dict(ev="nontrivial"))
                 if cls != exp_err:
                     self.fail(node, beh, k, bk, "errclass", f"specification: {exp_err}, raised {cls}: {e}",
                               expected=exp_err, exc=cls)
@@ -679,6 +683,8 @@ class Replayer:
                     s.frames.append(None)
             self.cross_compare(node, beh, k, step)
         self.stats["steps_new"] += 1
+        if any(e.get("ev") == "nontrivial" for e in node.events) or "val" in step:
+            self.stats["nontrivial"] += 1
         return node
 
     def replay(self, beh):
